@@ -197,7 +197,10 @@ def parse_sim_file(path):
         head, _, rest = part.partition("\n")
         m = re.match(r"(\w+)(?:\((.*)\))? line \d+", head)
         name = m.group(1)
-        args = split_args(m.group(2)) if m.group(2) else []
+        try:
+            args = split_args(m.group(2)) if m.group(2) else []
+        except tlaval.ParseError:
+            args = None
         body = rest.split("==", 1)[1]
         body = body.split("\n\n\n")[0]
         body = body.replace("=================================================", "")
